@@ -157,11 +157,11 @@ Proof.
   intros Hb. destruct (hex_byte_ok_spec b Hb) as [h [l [_ [_ [_ [_ [_ [_ H]]]]]]]]. exact H.
 Qed.
 
-Lemma hex_body_decodes x body tail :
-  hex_body x body -> hex_text tail = [] -> hex_pairs (hex_text (body ++ tail)) = Ok x.
+Lemma hex_body_decodes_gen x body tail y :
+  hex_body x body -> hex_pairs (hex_text tail) = Ok y -> hex_pairs (hex_text (body ++ tail)) = Ok (x ++ y).
 Proof.
   intros H Ht. induction H as [|w x s Hw Hb IH|b h l ws x s Hb Hh Hl Hws Hbody IH].
-  - cbn [app]. rewrite Ht. reflexivity.
+  - cbn [app]. exact Ht.
   - cbn [app]. destruct (iso_ws_spec w Hw) as [A B]. rewrite hex_text_ws by assumption. exact IH.
   - assert (b / 16 < 16) by (apply N.div_lt_upper_bound; lia).
     assert (b mod 16 < 16) by (apply N.mod_lt; lia).
@@ -173,6 +173,12 @@ Proof.
     cbn [hex_pairs]. rewrite Dl, Dh, IH, combine_div_mod by assumption. reflexivity.
 Qed.
 
+Lemma hex_body_decodes x body tail :
+  hex_body x body -> hex_text tail = [] -> hex_pairs (hex_text (body ++ tail)) = Ok x.
+Proof.
+  intros H Ht. rewrite <- (app_nil_r x). apply hex_body_decodes_gen; [assumption|]. rewrite Ht. reflexivity.
+Qed.
+
 Theorem hex_decodes_every_spelling : forall x s, hex_spells x s -> decode_hex s = Ok x.
 Proof.
   intros x s [body [Hb [Hs|[rest Hs]]]]; subst s; rewrite decode_hex_unfold.
@@ -180,7 +186,49 @@ Proof.
   - apply hex_body_decodes; [assumption|]. rewrite <- hex_eod_is_gt. apply hex_text_eod.
 Qed.
 
-(** The odd-digit case of §7.4.2 ("final digit assumed to be 0") is where the
-    faithful model deviates: the dangling digit is dropped (C05-a).  *)
-Theorem hex_odd_digit_refuted : decode_hex [52; 49; 55; 62] = Ok [65] /\ [65; 112] <> [65].
-Proof. split; [vm_compute; reflexivity|discriminate]. Qed.
+(** The odd-digit case of §7.4.2: "if the filter encounters the EOD marker after reading an odd
+    number of hexadecimal digits, it shall behave as if a 0 (zero) followed the last digit".
+    A spelling may therefore drop the final digit of a last byte whose low nibble is 0. *)
+Definition hex_spells_odd (x s : bytes) : Prop :=
+  exists x0 b h body ws, x = x0 ++ [b] /\ hex_body x0 body /\ b < 256 /\ b mod 16 = 0 /\
+    hexdigit_of (b / 16) h /\ Forall (fun w => In w iso_ws) ws /\
+    (s = body ++ h :: ws \/ exists rest, s = body ++ h :: ws ++ 62 :: rest).
+
+Lemma hex_text_ws_only ws : Forall (fun w => In w iso_ws) ws -> hex_text ws = [].
+Proof. intros H. rewrite <- (app_nil_r ws). rewrite hex_text_skip_ws by assumption. reflexivity. Qed.
+
+Theorem hex_decodes_odd_spelling : forall x s, hex_spells_odd x s -> decode_hex s = Ok x.
+Proof.
+  intros x s (x0 & b & h & body & ws & -> & Hb & Hlt & Hlow & Hh & Hws & Hs).
+  assert (Hhi : b / 16 < 16) by (apply N.div_lt_upper_bound; lia).
+  destruct (hexdigit_decodes _ _ Hhi Hh) as [Ch Dh].
+  assert (Hval : (b / 16 * 16) mod 256 = b).
+  { pose proof (N.div_mod b 16 ltac:(lia)) as E. rewrite Hlow in E. rewrite N.mod_small; lia. }
+  rewrite decode_hex_unfold.
+  assert (Hone : forall tail, hex_text tail = [] -> hex_pairs (hex_text (h :: ws ++ tail)) = Ok [b]).
+  { intros tail Ht. rewrite hex_text_clean by assumption. rewrite hex_text_skip_ws by assumption.
+    rewrite Ht. cbn [hex_pairs]. rewrite Dh, Hval. reflexivity. }
+  destruct Hs as [->|[rest ->]].
+  - apply hex_body_decodes_gen; [assumption|]. rewrite <- (app_nil_r ws). apply Hone. reflexivity.
+  - apply hex_body_decodes_gen; [assumption|]. apply Hone. rewrite <- hex_eod_is_gt. apply hex_text_eod.
+Qed.
+
+(** every spelling the standard allows *)
+Definition hex_spells_iso (x s : bytes) : Prop := hex_spells x s \/ hex_spells_odd x s.
+Theorem hex_decodes_iso : forall x s, hex_spells_iso x s -> decode_hex s = Ok x.
+Proof. intros x s [H|H]; [apply hex_decodes_every_spelling|apply hex_decodes_odd_spelling]; exact H. Qed.
+
+(* non-vacuity: "417>" spells "Ap" (the witness of the former finding C05-a) *)
+Example hex_odd_example : hex_spells_odd [65; 112] [52; 49; 55; 62].
+Proof.
+  exists [65], 112, 55, [52; 49], [].
+  split; [reflexivity|]. split.
+  { apply (hb_byte 65 52 49 [] [] []).
+    - reflexivity.
+    - left. split; reflexivity.
+    - left. split; reflexivity.
+    - apply Forall_nil.
+    - apply hb_nil. }
+  split; [reflexivity|]. split; [reflexivity|]. split; [left; split; reflexivity|].
+  split; [apply Forall_nil|]. right. exists []. reflexivity.
+Qed.
